@@ -481,3 +481,83 @@ def r09_7(prog, rep, rid="R09.7"):
                          "the year the remainder table (14 entries) is indexed out of bounds and a month beyond 12 is put into the candidate set" % name)
     if n < 1:
         rep.broken_("rule=%s expected >=1 offset day-of-year handed to yd_to_md, found %d" % (rid, n))
+
+
+# ---------------------------------------------------------------------------
+# R01.6 the calendar cursor's month length belongs to the cursor's own month
+
+NDIM_FNS = ("echs_scale_ndim", "__get_ndom", "__ndim_greg", "__ndim_hij", "__ndim_ht")
+
+
+def _in_range(e, r):
+    return bool(r) and (r[0], r[1]) <= (e.get("line") or 0, e.get("col") or 0) <= (r[2], r[3])
+
+
+def main_loop_stmt(f, h):
+    """The loop statement (source ranges of init/cond/inc/body, from the extractor) whose condition the header block h evaluates."""
+    blk = f.cfg.blocks[h]
+    if not blk.elems:
+        return None
+    he = blk.elems[-1]
+    cand = [L for L in f.raw.get("loops", []) if L.get("cond") and _in_range(he, L["cond"])]
+    if not cand:
+        return None
+    return sorted(cand, key=lambda L: (L["cond"][2] - L["cond"][0], L["cond"][3] - L["cond"][1]))[0]
+
+
+def r01_6(prog, rep, rid="R01.6"):
+    """The fillers walk the calendar with a cursor (y, m, d, ... and the length `maxd` of the cursor's month) that the main loop's step
+    expression advances.  The day wrap `d > maxd` is right only while maxd is the length of month (y, m) of the *cursor*: every
+    assignment of a month length to a cursor variable must be computed from cursor variables (an inner enumeration that runs ahead
+    on copies this_y/this_m must keep its month length in a copy as well)."""
+    n = 0
+    for f in fillers(prog):
+        cfg = f.cfg
+        loops = cfg.natural_loops()
+        mains = sorted((h for h in loops if _is_main_loop(f, h)), key=lambda h: -len(loops[h]))
+        if not mains:
+            continue
+        h = mains[0]
+        L = main_loop_stmt(f, h)
+        if L is None or not L.get("inc"):
+            continue
+        cursor = set()
+        for b in loops[h]:
+            for e in cfg.blocks[b].elems:
+                if isinstance(e["x"], dict) and _in_range(e, L["inc"]):
+                    for l, kind, nn in writes(e["x"]):
+                        if kind != "decl" and strip_casts(l).get("k") == "ref":
+                            cursor.add(lv(l))
+        if not cursor:
+            continue
+        # scratch variables: locals written inside the loop body that are not part of the cursor
+        for b in sorted(loops[h]):
+            for i, e in enumerate(cfg.blocks[b].elems):
+                x = e["x"]
+                if not isinstance(x, dict):
+                    continue
+                for l, kind, nn in writes(x):
+                    if kind == "decl" or lv(l) not in cursor:
+                        continue
+                    rhs = nn.get("r") if nn.get("k") == "bin" and nn["op"] == "=" else None
+                    if rhs is None:
+                        continue
+                    r = strip_casts(cfg.resolve(rhs))
+                    if not (r.get("k") == "call" and r.get("fn") in NDIM_FNS):
+                        continue
+                    n += 1
+                    args = [strip_casts(cfg.resolve(a)) for a in r["a"]]
+                    foreign = [lv(a) for a in args if a.get("k") == "ref" and a.get("dk") == "local" and lv(a) not in cursor
+                               and any(lv(l2) == lv(a) and k2 != "decl" or (k2 == "decl" and lv(l2) == lv(a) and b2 in loops[h])
+                                       for b2 in loops[h] for e2 in cfg.blocks[b2].elems if isinstance(e2["x"], dict) for l2, k2, n2 in writes(e2["x"]))]
+                    key = "%s/%s=%s@%s" % (f.name, lv(l), r["fn"], "step" if _in_range(e, L["inc"]) else "body")
+                    if foreign:
+                        rep.fail(rid, key, f.loc(nn.get("line", e.get("line"))),
+                                 "%s is part of the calendar cursor (advanced by the loop step together with %s) but is assigned the length of month (%s): "
+                                 "a copy that runs ahead of the cursor; after an enumeration that spills into the next month the cursor wraps its day with "
+                                 "the wrong month length and the whole series shifts" % (lv(l), ", ".join(sorted(cursor - {lv(l)})), ", ".join(lv(a) for a in args[1:])))
+                    else:
+                        rep.ok(rid, key, f.loc(nn.get("line", e.get("line"))), "%s = %s(%s): month length of the cursor's own month" % (
+                            lv(l), r["fn"], ", ".join(lv(a) for a in args)))
+    if n < 5:
+        rep.broken_("rule=%s expected >=5 month-length assignments to cursor variables, found %d" % (rid, n))
